@@ -150,9 +150,12 @@ pub fn emit_b_module(id: usize, l: &Layout, o: &EmitOpts, consts: Option<&str>) 
     writeln!(s, "{}", MOD_ALLOW).unwrap();
     writeln!(s, "use arbitrary_int::*;\nuse rt::{{Obj, Val}};\n").unwrap();
     let ro = RenderOpts::default();
-    // the declaration lives in its own module, so that only its public API is reachable from the adapter
+    // the declaration lives in its own module, so that only its public API is reachable from the adapter;
+    // every third module carries doc comments on all items, fields and variants (they are passed through
+    // to the generated accessors and must not change anything)
+    let ro_decl = RenderOpts { docs: id % 3 == 1, ..RenderOpts::default() };
     writeln!(s, "pub mod decl {{\n    #![allow(dead_code, unused_imports, non_camel_case_types, non_upper_case_globals)]\n    use arbitrary_int::*;").unwrap();
-    s.push_str(&render_layout(l, &ro));
+    s.push_str(&render_layout(l, &ro_decl));
     writeln!(s, "}}\nuse decl::*;\n").unwrap();
     for e in &l.enums {
         s.push_str(&enum_to_disc_fn(e));
